@@ -318,7 +318,7 @@ func TestHostileImages(t *testing.T) {
 		}
 		img, muts, l := fwgen.GenHostile(t, o)
 		r := genReq(t)
-		res := isolate.Run("fw", encode(r, img))
+		res := isolate.RunConfirmed("fw", encode(r, img), uint64(baseBudget)+perByte*uint64(len(img)), 20000)
 		what := fmt.Sprintf("hostile image (%d bytes, planted %v, sev sections %+v ov %s, tdx sections %+v) opts %+v", len(img), muts, l.Sev, ovStr(l.Ov), l.Tdx, r)
 		if !verdict(t, r, img, res, tdxBigSection(l), what) {
 			return
@@ -400,7 +400,7 @@ func TestRandomBytes(t *testing.T) {
 			copy(img[off:], w)
 		}
 		r := genReq(t)
-		res := isolate.Run("fw", encode(r, img))
+		res := isolate.RunConfirmed("fw", encode(r, img), uint64(baseBudget)+perByte*uint64(len(img)), 20000)
 		if !verdict(t, r, img, res, "", fmt.Sprintf("random image (%d bytes) opts %+v", len(img), r)) {
 			return
 		}
@@ -459,7 +459,7 @@ func TestRegressions(t *testing.T) {
 		{"known/td-hob-2^63", req{Entry: "tdx.MRTD", Mode: 0}, mk(func(l *fwgen.Layout) { l.Tdx[1].MemorySize = 1 << 63 }), "td-hob"},
 	}
 	for _, c := range cases {
-		res := isolate.Run("fw", encode(c.r, c.img))
+		res := isolate.RunConfirmed("fw", encode(c.r, c.img), uint64(baseBudget)+perByte*uint64(len(c.img)), 20000)
 		if !verdict(t, c.r, c.img, res, c.big, "regression case "+c.label) {
 			return
 		}
